@@ -41,6 +41,11 @@ type variantFile struct {
 	Quiet    bool     `json:"quiet"`
 	Expect   string   `json:"expect"` // substring of a failing obligation key (optional)
 	Why      string   `json:"why"`
+	Edits    []struct {
+		File    string `json:"file"`
+		Find    string `json:"find"`
+		Replace string `json:"replace"`
+	} `json:"edits"` // further edits applied together with File/Find/Replace
 }
 
 func failing(rep *Report, known *KnownFindings, prop string) []Obligation {
@@ -186,9 +191,10 @@ func thorough(prop *Property, p *Prog, rep *Report, repo string) {
 			continue
 		}
 		var meta struct {
-			ID   string   `json:"id"`
-			Prop string   `json:"breaks_property"`
-			Also []string `json:"also_checked_under"`
+			ID         string   `json:"id"`
+			Prop       string   `json:"breaks_property"`
+			Also       []string `json:"also_checked_under"`
+			Undetected bool     `json:"expected_undetected"`
 		}
 		if json.Unmarshal(mb, &meta) != nil {
 			continue
@@ -211,6 +217,14 @@ func thorough(prop *Property, p *Prog, rep *Report, repo string) {
 			total++
 			skipped++
 			results = append(results, result{"seeded/" + filepath.Base(d), "skipped", "patch does not apply to the current tree: " + err.Error()})
+			continue
+		}
+		if meta.Undetected {
+			// a confirmed breaking change that only touches a clause listed as not decided:
+			// recorded, never counted as detected and never as a miss
+			total++
+			skipped++
+			results = append(results, result{"seeded/" + filepath.Base(d), "out-of-reach", "breaks only a clause this check does not decide (see meta.json)"})
 			continue
 		}
 		runVariant("seeded/"+filepath.Base(d), ov, false, "")
@@ -247,6 +261,30 @@ func thorough(prop *Property, p *Prog, rep *Report, repo string) {
 				continue
 			}
 			ov := map[string][]byte{path: []byte(strings.Replace(string(src), v.Find, v.Replace, 1))}
+			okEdits := true
+			for _, e := range v.Edits {
+				ep := filepath.Join(repo, e.File)
+				cur, have := ov[ep]
+				if !have {
+					b, err := os.ReadFile(ep)
+					if err != nil {
+						okEdits = false
+						break
+					}
+					cur = b
+				}
+				if strings.Count(string(cur), e.Find) < 1 {
+					okEdits = false
+					break
+				}
+				ov[ep] = []byte(strings.Replace(string(cur), e.Find, e.Replace, 1))
+			}
+			if !okEdits {
+				total++
+				skipped++
+				results = append(results, result{v.ID, "skipped", "the text to rewrite is not present in the current tree"})
+				continue
+			}
 			runVariant(v.ID, ov, v.Quiet, v.Expect)
 		}
 	}
